@@ -360,6 +360,16 @@ func (x *expecter) expect(k string) *D {
 				s = &D{K: "zero"}
 			}
 			if pv.OutIdx == 1 {
+				// through the pointer the scratch field is not compared (see tr.descStruct)
+				if s.K == "struct" {
+					cp := &D{K: "struct"}
+					for _, f := range s.F {
+						if f.N != "Scratch_" {
+							cp.F = append(cp.F, f)
+						}
+					}
+					s = cp
+				}
 				d = &D{K: "ptr", E: []*D{s}}
 			} else {
 				d = s
